@@ -30,8 +30,14 @@ func buildLazyWire(r *sim.Rng, typ string, depth, size int, intensity int) ([]by
 	case gen.TOpaque:
 		o.FieldPerm = 60
 		o.Extensions = false
-	case gen.TLazyNode, gen.TMixedOpq, gen.TReqLazy:
+	case gen.TLazyNode, gen.TMixedOpq, gen.TReqLazy, gen.THybNode, gen.TMixedHyb:
 		o.FieldPerm = 500
+	case gen.THybrid:
+		o.FieldPerm = 60
+		o.Extensions = false
+	case gen.TExt2:
+		o.FieldPerm = 0
+		o.MaxDepth = 2
 	}
 	gen.Populate(r, m.ProtoReflect(), o)
 	w, err := proto.MarshalOptions{AllowPartial: true}.Marshal(m)
